@@ -148,12 +148,36 @@ func nopNeg(ns string) xmpp.Negotiator {
 	}
 }
 
+// presShapes: muc#user payloads of an (un)available presence that the library cannot decode - only ever sent for
+// rooms that were never joined, whose presences are ignored whatever they contain
+var presShapes = map[string]bool{"badaff": true, "badrole": true, "badstatus": true}
+
+func presBody(shape, role string) string {
+	aff, code := "member", "110"
+	switch shape {
+	case "badaff":
+		aff = "emperor"
+	case "badrole":
+		role = "ghost"
+	case "badstatus":
+		code = "one-ten"
+	}
+	return fmt.Sprintf(`<x xmlns='http://jabber.org/protocol/muc#user'><item affiliation='%s' role='%s'/><status code='%s'/></x>`, aff, role, code)
+}
+
 func stanzaBytes(s *Stanza, seq int) string {
 	from := s.Room + "@" + service
 	if s.Nick != "-" && s.Nick != "" {
 		from += "/" + s.Nick
 	}
 	x110 := `<x xmlns='http://jabber.org/protocol/muc#user'><item affiliation='member' role='participant'/><status code='110'/></x>`
+	if (s.Ty == "av" || s.Ty == "un") && presShapes[s.Shape] {
+		typ, role := "", "participant"
+		if s.Ty == "un" {
+			typ, role = " type='unavailable'", "none"
+		}
+		return fmt.Sprintf("<presence from='%s' to='me@example.net' id='s%d'%s>%s</presence>", from, seq, typ, presBody(s.Shape, role))
+	}
 	switch s.Ty {
 	case "av":
 		if s.Nick == "ot" {
@@ -842,6 +866,9 @@ func main() {
 				}
 			}
 			// every stanza carries a shape: the plain well-formed one for an error reply without
+			if st := s.Steps[i].St; st != nil && (st.Ty == "av" || st.Ty == "un") && presShapes[st.Shape] {
+				continue // a presence whose muc#user payload cannot be decoded
+			}
 			if st := s.Steps[i].St; st != nil && (st.Shape == "" || st.Ty != "er") {
 				st.Shape = "-"
 				if st.Ty == "er" {
